@@ -95,6 +95,21 @@ CLAIMED["C09"] = dict(
     technique="Lean 4 proof (mutual structural induction over types and values) + behavioural correspondence + adversarial literals",
 )
 
+CLAIMED["C02"] = dict(
+    text="Lean theorems C02_push_panic_if and C02_mux_panic (+ C02_first_wins, C02_restore, C02_initial): for EVERY builder state, "
+         "every panic record satisfying the invariant (all records reachable from PanicResult::ok()), every condition wire and "
+         "every input, push_panic_if refines raiseIf on the abstract panic state Option<reason+location> (a panic is raised iff the "
+         "condition holds and none was raised before; an earlier panic is never dropped or overwritten) and mux_panic refines "
+         "if-then-else (code on the path not taken contributes nothing). The model of the record operations is tied to circuit.rs "
+         "by exact structural correspondence through the verif_hooks wrapper on random compile.rs-shaped operation sequences, and "
+         "the real circuits are evaluated on ALL inputs against the abstract state. PARTIAL: the program-level statement (source "
+         "semantics of whole programs vs the compiled circuit) is not yet a theorem.",
+    design_ref="DESIGN.md §6 C02",
+    note="trusted: as C04 (same builder model/correspondence); Model/Builder.lean panic section models circuit.rs:646-758 AFTER the "
+         "repair 4447ea8 (the unrepaired code violates the property: see known_findings.json)",
+    technique="Lean 4 proof (refinement of the abstract panic state with a cache invariant) + structural correspondence",
+)
+
 NOT_YET = "not claimed yet: model/proof for this property is still being built in this session (see DESIGN.md §10 order of work)"
 
 
